@@ -132,3 +132,59 @@ def deref(fn_node: ast.AST, e: ast.AST, depth: int = 4) -> ast.AST:
 		e = defs[0].value
 		depth -= 1
 	return e
+
+
+_FICACHE: dict[int, ast.AST] = {}
+
+
+def FI(func: FuncInfo) -> ast.AST:
+	"""copy of the function with every single-assignment local replaced by its defining expression (for matching only: evaluation order is not preserved)"""
+	if id(func) not in _FICACHE:
+		_FICACHE[id(func)] = Expander(func, extra_pure=lambda v: True).expand(func.node)
+	return _FICACHE[id(func)]
+
+
+def closure_fi(func: FuncInfo, depth: int = 2) -> list[ast.AST]:
+	return [FI(f) for f in helper_closure(func, depth)]
+
+
+def concat_parts(e: ast.AST) -> list[tuple[str, object]]:
+	"""an f-string or a `+` chain as [('const', text) | ('expr', node)], adjacent constants merged"""
+	out: list[tuple[str, object]] = []
+
+	def add(kind, v):
+		if kind == 'const' and out and out[-1][0] == 'const':
+			out[-1] = ('const', str(out[-1][1]) + str(v))
+		else:
+			out.append((kind, v))
+
+	def rec(x):
+		if isinstance(x, ast.JoinedStr):
+			for v in x.values:
+				if isinstance(v, ast.Constant):
+					add('const', v.value)
+				elif isinstance(v, ast.FormattedValue) and v.format_spec is None and v.conversion == -1:
+					rec(v.value)
+				else:
+					add('expr', v)
+		elif isinstance(x, ast.BinOp) and isinstance(x.op, ast.Add):
+			rec(x.left)
+			rec(x.right)
+		elif isinstance(x, ast.Constant) and isinstance(x.value, str):
+			add('const', x.value)
+		else:
+			add('expr', x)
+	rec(e)
+	return out
+
+
+def facts_through(func: FuncInfo, target_fn: ast.AST, target: ast.AST, depth: int = 2) -> list[tuple[str, bool]]:
+	"""facts at target inside target_fn (a member of closure(func)) plus, when target_fn is a helper, the facts at its call sites in the other members"""
+	out = list(facts(target_fn, target))
+	name = getattr(target_fn, 'name', None)
+	for fn in closure(func, depth):
+		if fn is target_fn or name is None:
+			continue
+		for c in calls(fn, name):
+			out.extend(facts(fn, c))
+	return out
